@@ -27,6 +27,9 @@ package lisp
 //@   loop 1 readsat "let_env := NewSubordinateEnv(env)"
 //@   at "defer func() { _, _ = do(ctx, finallyDo, 0, 0, env) }()" assert tryShape(ast, tryDo, catchDo, catchBind, finallyDo) @C01,C03,C08,C12,C18
 //@   at "defer func() { _, _ = do(ctx, finallyDo, 0, 0, env) }()" assert tryArity(ast) @C01,C03,C08,C12,C18
+//@   at "defer func() { _, _ = do(ctx, finallyDo, 0, 0, env) }()" assert env == athead(env) @C01,C03,C08,C12,C18
+//@   at "defer func() { _, _ = do(ctx, finallyDo, 0, 0, env) }()" assert ast == outV(mexpOut(athead(ast), athead(env), athead(world()))) @C01,C03,C08,C12,C18
+//@   at "defer func() { _, _ = do(ctx, finallyDo, 0, 0, env) }()" assert tryBody(out(exp, e, world()), tryDo, env, outW(mexpOut(athead(ast), athead(env), athead(world())))) @C01,C03,C08,C12,C18
 //@   loop 1 continue evalOut(ast, env, world())
 //@   loop 1 result out(res, e, world())
 //@   loop 1 invariant validEnvVal(env)
@@ -186,8 +189,8 @@ package lisp
 // let is checked in both tiers: letErr is the index of the first binding that fails (a non-symbol name
 // or an error of its value form), -1 if none; the binding loop carries "no failure before i" as
 // letErr(bs, 0) == letErr(bs, i), so no quantifier is needed. The full relation of try
-// (tryStepThorough, with the cut lemmas tryShapeThorough and tryArityThorough asserted after the
-// body has run) needs 5-60 s per case and replaces tryStep in the thorough tier only; the quick
+// (tryStepThorough, with the cut lemmas tryShapeThorough, tryArityThorough and tryBodyThorough
+// asserted after the body has run) needs 5-60 s per case and replaces tryStep in the thorough tier only; the quick
 // tier checks the empty try form.
 //@ spec tryStep(y MalType, env EnvType, w World, o Outcome) bool = ite(len(lst(y)) == 1, o == out(nil, nil, w), true)
 //@ spec firstName(x MalType) string = ite(x != nil && is(x, List) && len(lst(x)) > 0 && is(lst(x)[0], Symbol), lst(x)[0].(Symbol).Val, "")
@@ -203,5 +206,7 @@ package lisp
 // quick tier: the cut lemmas are trivial and the try relation covers the empty form only
 //@ spec tryShape(y MalType, tryDo MalType, catchDo MalType, catchBind MalType, finallyDo MalType) bool = true
 //@ spec tryArity(y MalType) bool = true
+//@ spec tryBody(o Outcome, tryDo MalType, env EnvType, w World) bool = true
+//@ spec tryBodyThorough(o Outcome, tryDo MalType, env EnvType, w World) bool = o == doOut(tryDo, 0, 0, env, w)
 //@ spec tryShapeThorough(y MalType, tryDo MalType, catchDo MalType, catchBind MalType, finallyDo MalType) bool = ite(firstName(lastOf(y)) == "catch", tryDo == listOf(lst(y)[1:len(lst(y))-1]) && catchDo == listOf(lst(lastOf(y))[2:]) && catchBind == lst(lastOf(y))[1] && finallyDo == nil, ite(firstName(lastOf(y)) == "finally", finallyDo == listOf(lst(lastOf(y))[1:]) && ite(len(lst(y)) >= 3 && firstName(prelastOf(y)) == "catch", tryDo == listOf(lst(y)[1:len(lst(y))-2]) && catchDo == listOf(lst(prelastOf(y))[2:]) && catchBind == lst(prelastOf(y))[1], tryDo == listOf(lst(y)[1:len(lst(y))-1]) && catchDo == nil), tryDo == listOf(lst(y)[1:]) && catchDo == nil && finallyDo == nil))
 //@ spec tryStepThorough(y MalType, env EnvType, w World, o Outcome) bool = ite(len(lst(y)) == 1, o == out(nil, nil, w), ite(firstName(lastOf(y)) == "catch", ite(len(lst(lastOf(y))) < 3, failure(o, w), tryRel(lst(y)[1:len(lst(y))-1], true, lst(lastOf(y))[1], lst(lastOf(y))[2:], false, lst(y)[0:0], env, w, o)), ite(firstName(lastOf(y)) == "finally", ite(len(lst(y)) >= 3 && firstName(prelastOf(y)) == "catch", ite(len(lst(prelastOf(y))) < 3, failure(o, w), tryRel(lst(y)[1:len(lst(y))-2], true, lst(prelastOf(y))[1], lst(prelastOf(y))[2:], true, lst(lastOf(y))[1:], env, w, o)), tryRel(lst(y)[1:len(lst(y))-1], false, nil, lst(y)[0:0], true, lst(lastOf(y))[1:], env, w, o)), tryRel(lst(y)[1:], false, nil, lst(y)[0:0], false, lst(y)[0:0], env, w, o))))
